@@ -24,4 +24,12 @@ for d in sorted(os.listdir(os.path.join(V, "seeded"))):
         out[d] = dict(exit=r.returncode, violation_lines=nviol)
     finally:
         subprocess.run(["git", "-C", "/repo", "checkout", "--", "."])
-json.dump(out, open(os.path.join(V, "seeded", "last_run.json"), "w"), indent=1)
+lr = os.path.join(V, "seeded", "last_run.json")
+if only and os.path.exists(lr):          # a partial run updates the recorded sweep instead of replacing it
+    try:
+        prev = json.load(open(lr))
+        prev.update(out)
+        out = prev
+    except Exception:
+        pass
+json.dump(out, open(lr, "w"), indent=1, sort_keys=True)
